@@ -11,5 +11,6 @@ CONSTANTS
   CfgSW = FALSE
   CfgNidl = TRUE
   CfgSO = FALSE
+  CfgRmErr = FALSE
 INVARIANTS InvC10
 CHECK_DEADLOCK FALSE
